@@ -31,7 +31,8 @@ def run_geo(jobs, want_sem=True):
         if r["outcome"] != "ok":
             continue
         cases.append({"id": r["id"], "mode": "geo", "printed": r["printed"], "geometry": r.get("geometry", []),
-                      "check_power": bool(r["options"].get("power_poles"))})
+                      "check_power": bool(r["options"].get("power_poles")),
+                      "pretrim_poles": r.get("pretrim_poles") or [], "grid_supply": r.get("grid_supply") or 0})
         wf.append({"id": r["id"], "mode": "wf", "ast": r["ast"]})
     geo = {c["id"]: v for c, v in zip(cases, run_driver(cases))} if cases else {}
     wfv = {c["id"]: v for c, v in zip(wf, run_driver(wf))} if wf else {}
